@@ -2,5 +2,6 @@ SPECIFICATION Spec
 CONSTANTS NB = 3
           NID = 2
           Wide = TRUE
+          Inners = {"plain", "w", "wV", "wA", "wVA", "tq", "bloom"}
           MaxBatch = 2
-INVARIANTS TypeOK IdentityNeverStored IdentityAlwaysPresent IdentityInlined AliasSameEntry
+INVARIANTS TypeOK IdentityNeverStored IdentityAlwaysPresent IdentityInlined AliasSameEntry WrapperTransparent
